@@ -71,6 +71,63 @@ def engine_b(v, tier, seed):
     return stats
 
 
+SYS_DEVS = ["merge_oldest_wins", "update_keeps_cache", "save_forgets_table"]
+
+
+def system_part(v, tier):
+    """spec/PdfSystem.tla: several sessions over one file (open / modify / save / close / open the saved bytes again ...)"""
+    q = tier == "quick"
+    with cf.ThreadPoolExecutor(max_workers=3) as ex:
+        f_mc = ex.submit(vlib.run_tlc, "MC_PdfSystem", "PdfSystem_mcq.cfg" if q else "PdfSystem_mc.cfg", PID, "sys_mc", workers=4, timeout=3000, heap="8g")
+        f_gen = ex.submit(vlib.run_tlc, "MC_PdfSystem", "PdfSystem_q6_gen.cfg" if q else "PdfSystem_q_gen.cfg", PID, "sys_gen", workers=4, timeout=3000, heap="8g", coverage=False)
+        f_w = {d: ex.submit(vlib.run_tlc, "MC_PdfSystem", "PdfSystem_w_%s.cfg" % d, PID, "sys_w_" + d, workers=2, timeout=900, expect_violation=True, coverage=False) for d in SYS_DEVS}
+        mc, gen = f_mc.result(), f_gen.result()
+        wit = {d: f.result()["violation"] for d, f in f_w.items()}
+    if mc["violation"]:
+        v.model_violation("PdfSystem:%s" % mc["violation"], mc)
+    for d, viol in wit.items():
+        if not viol:
+            raise vlib.ToolError("deviation %s is no longer refuted by the model (spec rot)" % d)
+    for act in ("Open", "Create", "Update", "Get", "Save", "Close"):
+        if mc["coverage"].get(act, 0) == 0:
+            raise vlib.ToolError("vacuous TLC run: action %s never taken" % act)
+    cases = drop_prefix_paths(gen["cases"])
+    wd = vlib.workdir(PID, "system")
+    nsh = 6
+    reps = []
+
+    def one(k):
+        cp, rp = os.path.join(wd, "cases_%d.ndjson" % k), os.path.join(wd, "report_%d.json" % k)
+        vlib.write_cases(cases[k::nsh], cp)
+        return vlib.run_harness("system", cp, rp)
+    with cf.ThreadPoolExecutor(max_workers=nsh) as ex:
+        reps = list(ex.map(one, range(nsh)))
+    tot = {"cases": 0, "execs": 0, "nontrivial": 0}
+    for r in reps:
+        v.from_report(r)
+        for k in tot:
+            tot[k] += r[k]
+    return {"states": mc["distinct"] + gen["distinct"], "transitions": mc["generated"] + gen["generated"], "paths_replayed": tot["cases"], "calls_replayed": tot["execs"],
+            "multi_session_paths_with_a_save": tot["nontrivial"], "deviation_witnesses_refuted": wit, "action_coverage": mc["coverage"],
+            "rule": "spec/PdfSystem.tla composes the cross-reference merge, the store and the caches over up to 3 sessions (8 calls, 3 saves) on one file; TLC checks SessionView, "
+                    "GetAnswers, Durable and AppendOnly and refutes merge_oldest_wins, update_keeps_cache, save_forgets_table; one shortest call path per distinct (state, last call) "
+                    "is replayed: every session opens the bytes the previous one saved (cached File / uncached Storage as the path says, junk prefix 0/7, both base layouts), after every call "
+                    "every known reference is resolved and every get compared with the ghost, every save must extend the previous bytes"}
+
+
+def drop_prefix_paths(cases):
+    """a path that is a proper prefix of another emitted path is replayed as part of that one"""
+    keyed = []
+    for c in cases:
+        j = json.loads(c)
+        keyed.append((tuple((s["op"], s["r"], s["v"], s["cached"]) for s in j["path"]), c))
+    prefixes = set()
+    for k, _ in keyed:
+        for n in range(1, len(k)):
+            prefixes.add(k[:n])
+    return [c for k, c in keyed if k not in prefixes]
+
+
 def run(tier, seed):
     t0 = time.time()
     v = vlib.Verdict(PID)
@@ -110,9 +167,11 @@ def run(tier, seed):
     rep = vlib.run_harness("store", cpath, os.path.join(wd, "report.json"), [] if q else ["--both-layouts"])
     v.from_report(rep)
     tstats = engine_b(v, tier, seed)
+    sysstats = system_part(v, tier)
     rc = v.finish()
     vlib.write_evidence(PID, tier, seed, "model_checking", {
         "trace_validation": tstats,
+        "system_composition": sysstats,
         "states": mc["distinct"] + gen["distinct"], "transitions": mc["generated"] + gen["generated"],
         "traces_validated_against_impl": rep["cases"],
         "samples": rep["samples"][:2],
